@@ -219,6 +219,11 @@ func (o *Operator) HandleDeploy(ctx context.Context, req *workerpb.DeployOperato
 	o.sourceRunners = newUpstreams(req.SourceRunnerIds)
 	o.sink = sink
 
+	// Barrier alignment of a previous assembly must not leak into this one: its
+	// source runners are gone, so the alignment could never complete and would
+	// block the new senders and reject every new checkpoint id.
+	o.checkpoint = nil
+
 	if err := o.status.DidLoad(); err != nil {
 		return fmt.Errorf("invalid status transition: %w", err)
 	}
@@ -343,14 +348,21 @@ func (o *Operator) handleCheckpointBarrier(ctx context.Context, senderID string,
 	}
 
 	if o.checkpoint.hasAllBarriers() {
+		checkpointID := o.checkpoint.checkpointID
 		o.processEventBatch(ctx, batching.CurrentBatch) // Must flush any pending events before checkpointing
-		cp, err := o.db.Checkpoint(o.checkpoint.checkpointID)()
+
+		// The alignment for this checkpoint is over whatever happens next. Clear
+		// it before the steps that can fail so that a failed DKV checkpoint or
+		// acknowledgement cannot make the operator reject every later checkpoint id.
+		o.checkpoint = nil
+
+		cp, err := o.db.Checkpoint(checkpointID)()
 		if err != nil {
 			return err
 		}
 
 		err = o.job.OperatorCheckpointComplete(ctx, &snapshotpb.OperatorCheckpoint{
-			CheckpointId: o.checkpoint.checkpointID,
+			CheckpointId: checkpointID,
 			OperatorId:   o.id,
 			DkvFileUri:   cp.URI,
 			KeyGroupRange: &snapshotpb.KeyGroupRange{
@@ -361,9 +373,6 @@ func (o *Operator) handleCheckpointBarrier(ctx context.Context, senderID string,
 		if err != nil {
 			return err
 		}
-
-		// Reset checkpoint to nil for next checkpoint
-		o.checkpoint = nil
 		return nil
 	}
 
